@@ -235,6 +235,27 @@ ADDENDA6 = {
     "C20": ("; decision-block analysis of the back ends' instruction loops", " Also decides that only the compiler's per-instruction marks can make a back end pass over an instruction without calling its rule."),
 }
 
+# Additions after the seventh seeding round
+ADDENDA7 = {
+    "C02": ("; def-before-use of generated-code counters (shared with C03)", " Also decides that native loops never run on executor contents nobody stored (n/position independence for code called through wrappers), and that x2/x4 instructions are emulated with lane count and chunk offset scaled alike."),
+    "C03": ("; sibling agreement of displacement expressions inside load/store rules; sign-extension rule for 2-D strides", " Also decides that all accesses a load/store rule emits through its pointer register use the same displacement formula, and that strides are sign-extended before a pointer-sized add."),
+    "C04": ("; parameter staging rule (shared with C03)", " Also decides that the emulator stages int parameters sign-extended, as the generated C declares them."),
+    "C05": ("; finite evaluation of the assembler's one-byte range predicates; capacity rule for the mips word emitter; must-pass-through rules for dropping the old code object and for classifying code-less failures as fatal", " Also decides that every [-128,127] range predicate of the x86 assembler is exact, that the mips emitter checks the code buffer, that no return of the compile driver leaves an earlier code object installed, and that a failure before any code object exists is reported as fatal."),
+    "C06": ("; sibling agreement of accumulator subscripts", " Also decides that every run-time subscript of ex->accumulators[] is a variable number minus ORC_VAR_A1."),
+    "C07": ("; def-before-use of generated-code counters (shared with C03)", " Also decides that code called through a wrapper's uncleared stack executor reads no counter it has not stored."),
+    "C08": ("; who-may-write rule for the shared code object on the run/emulation path", " Also decides that running or emulating a program stores only into the executor, never into the shared OrcCode/OrcProgram."),
+    "C09": ("; freshness rule for the descriptor backing a region", " Also decides that every region maps a backing object created for it alone."),
+    "C10": ("; store-width rule for accumulator slots (shared with C07)", " Also decides that no generated accumulator store is wider than its slot."),
+    "C11": ("; own-flag (set) semantics and no-such-form verdicts in the ISA-level rule; delegation and lane-count rules", " The ISA rule now requires each instruction's own feature flag (not merely a higher one) and rejects forms the assembler knows for no register class; also decides that a rule delegates only to a rule of the same opcode and that scalar lane loops cover 1 << insn_shift lanes."),
+    "C13": ("; mirror rule for composite (string) codecs", " Also decides that strings are read back through the mirror primitives of those that wrote them."),
+    "C14": ("; finite walk of the line-terminator step; must-check rules for constructor results (sentinels passed on as indices, refusals turned into error records)", " Also decides that exactly one line terminator is consumed per line, that possibly negative constructor results are tested before they are used or passed on as variable indices, and that refusals of the construction API become error records."),
+    "C15": ("; exact-comparison rule for the by-name lookup of variables", " Also decides that operands are resolved by an exact comparison of the whole name."),
+    "C16": ("; parameter-ownership summaries for blocks passed straight to a callee", " The local-allocation rule also covers a fresh block passed directly to a callee that only reads or copies it."),
+    "C17": ("; def-before-use and tiling of generated-code counters (shared with C03/C10)", " Also decides that a run does not depend on counters left in the executor by an earlier run."),
+    "C18": ("; operand-arity rule for rule functions; widening rule through local definitions", " Also decides that a rule function reads only operands its opcode has, and that 8-byte parameters reach the emulator with both halves intact also when they are assembled from locals."),
+    "C19": ("; exact-comparison rule for the by-name lookup of targets", " Also decides that a target is found only under its whole name."),
+}
+
 NOT_YET = "check under construction in this round; not claimed until its rules are exact on the current tree"
 NOT_APPLICABLE = {
     "C01": "value equivalence of JIT code and emulation over all inputs/register allocations: no structural necessary condition beyond what C03/C10/C11 decide; needs execution or translation validation (other technique families)",
@@ -266,6 +287,9 @@ def main():
                 tech, text = tech + a[0], text + a[1]
             if pid in ADDENDA6:
                 a = ADDENDA6[pid]
+                tech, text = tech + a[0], text + a[1]
+            if pid in ADDENDA7:
+                a = ADDENDA7[pid]
                 tech, text = tech + a[0], text + a[1]
             checks.append({
                 "property_id": pid,
